@@ -6,11 +6,19 @@ Open Scope N_scope.
 
 (* reading what was written, followed by [rest], returns the value and leaves [rest];
    [rest] is arbitrary for a self-delimiting spec and empty for one that consumes its window *)
+Definition agree (rs : list N) (cs cd : ctx) : Prop := forall n, In n rs -> lookup n cs = lookup n cd.
+
 Definition rt_at (e pod : bool) (s : spec) : Prop :=
   forall cs cd v b rest,
-    wf s = true -> domb pod s v = true -> ser e s cs v = Some b ->
+    wf s = true -> agree (refs s) cs cd -> domb e pod s cs v = true -> ser e s cs v = Some b ->
     (delimited s = true \/ rest = []) ->
     de e pod s cd (b ++ rest) = Some (v, rest).
+
+Lemma agree_nil cs cd : agree [] cs cd.
+Proof. intros n []. Qed.
+
+Lemma agree_same rs c : agree rs c c.
+Proof. intros n _. reflexivity. Qed.
 
 (* ---------- leaves ---------- *)
 
@@ -19,7 +27,7 @@ Proof. intros H. apply take_app_n. lia. Qed.
 
 Lemma rt_leaf e pod s : is_leaf s = true -> rt_at e pod s.
 Proof.
-  intros Hl cs cd v b rest Hwf Hd Hs Hr.
+  intros Hl cs cd v b rest Hwf _ Hd Hs Hr.
   destruct s; try discriminate Hl; cbn [ser de domb wf delimited] in *.
   - (* prim *) now apply de_ser_prim.
   - (* bytearray *) destruct v; try discriminate.
@@ -63,7 +71,7 @@ Proof. reflexivity. Qed.
 Lemma rt_seq e pod ss : Forall (rt_at e pod) ss ->
   forall vs b rest,
     forallb wf ss = true -> butlast_all (map delimited ss) = true ->
-    all2 (map (domb pod) ss) vs = true ->
+    all2 (map (fun s' => domb e pod s' []) ss) vs = true ->
     ser_seq (map (fun s' => ser e s' []) ss) vs = Some b ->
     (forallb delimited ss = true \/ rest = []) ->
     de_seq (map (fun s' => de e pod s' []) ss) (b ++ rest) = Some (vs, rest).
@@ -83,7 +91,7 @@ Proof.
         cbn in Hr. now rewrite andb_true_r in Hr.
       - cbn [map] in Hbl. rewrite butlast_all_cons in Hbl. apply andb_prop in Hbl as [Hbl _].
         now left. }
-    rewrite (Hs [] [] v b1 (b2 ++ rest) Hwfs Hdv E1 Hhead).
+    rewrite (Hs [] [] v b1 (b2 ++ rest) Hwfs (agree_same _ _) Hdv E1 Hhead).
     assert (Hbl' : butlast_all (map delimited ss) = true).
     { destruct ss as [|s2 ss']; [reflexivity|].
       cbn [map] in Hbl. rewrite butlast_all_cons in Hbl. now apply andb_prop in Hbl as [_ Hbl]. }
@@ -97,7 +105,7 @@ Qed.
 
 Lemma rt_all_n e pod s : rt_at e pod s -> wf s = true -> delimited s = true ->
   forall vs b rest,
-    forallb (domb pod s) vs = true -> ser_all (ser e s []) vs = Some b ->
+    forallb (domb e pod s []) vs = true -> ser_all (ser e s []) vs = Some b ->
     de_n (de e pod s []) (length vs) (b ++ rest) = Some (vs, rest).
 Proof.
   intros Hs Hwf Hdl. induction vs as [|v vs IH]; intros b rest Hd Hser.
@@ -106,14 +114,14 @@ Proof.
     destruct (ser e s [] v) as [b1|] eqn:E1; [|discriminate].
     destruct (ser_all (ser e s []) vs) as [b2|] eqn:E2; [|discriminate].
     injection Hser as <-. rewrite <- app_assoc. cbn [length de_n].
-    rewrite (Hs [] [] v b1 (b2 ++ rest) Hwf Hdv E1 (or_introl Hdl)).
+    rewrite (Hs [] [] v b1 (b2 ++ rest) Hwf (agree_same _ _) Hdv E1 (or_introl Hdl)).
     now rewrite (IH b2 rest Hd eq_refl).
 Qed.
 
 Lemma rt_all_greedy e pod s : rt_at e pod s -> wf s = true -> delimited s = true ->
   0 < min_size s ->
   forall vs b fuel,
-    forallb (domb pod s) vs = true -> ser_all (ser e s []) vs = Some b ->
+    forallb (domb e pod s []) vs = true -> ser_all (ser e s []) vs = Some b ->
     (length b <= fuel)%nat ->
     de_greedy (de e pod s []) fuel b = Some (vs, []).
 Proof.
@@ -128,7 +136,7 @@ Proof.
     destruct fuel as [|fuel]; [cbn in Hf; lia|].
     cbn [app de_greedy].
     change (x :: b1' ++ b2) with ((x :: b1') ++ b2).
-    rewrite (Hs [] [] v (x :: b1') b2 Hwf Hdv E1 (or_introl Hdl)).
+    rewrite (Hs [] [] v (x :: b1') b2 Hwf (agree_same _ _) Hdv E1 (or_introl Hdl)).
     rewrite (IH b2 fuel Hd eq_refl); [reflexivity|].
     cbn [app length] in Hf. rewrite app_length in Hf. lia.
 Qed.
@@ -140,8 +148,8 @@ Definition fnames (fs : list (N * spec)) : list N := map fst fs.
 Lemma memN_cons x y l : memN x (y :: l) = (x =? y) || memN x l.
 Proof. reflexivity. Qed.
 
-Lemma tdomb_keys pod skip fs : forall kvs n,
-  tdomb (map (fun f => (fst f, optional (snd f), domb pod (snd f))) fs) skip kvs = true ->
+Lemma tdomb_keys e pod skip full fs : forall kvs n,
+  tdomb (map (fun f => (fst f, optional (snd f), domb e pod (snd f) full)) fs) skip kvs = true ->
   memN n (map fst fs) = false -> lookup n kvs = None.
 Proof.
   induction fs as [|f fs IH]; intros kvs n Hd Hn.
@@ -155,22 +163,41 @@ Proof.
       * apply andb_prop in Hd as [_ Hd]. now apply IH.
 Qed.
 
+Lemma lookup_app {A} n (a b : list (N * A)) :
+  lookup n (a ++ b) = match lookup n a with Some x => Some x | None => lookup n b end.
+Proof.
+  induction a as [|[k x] a IH]; cbn [app lookup]; [reflexivity|].
+  destruct (n =? k); [reflexivity|exact IH].
+Qed.
+
+Lemma memN_in x l : In x l -> memN x l = true.
+Proof.
+  unfold memN. induction l as [|y l IH]; cbn; [contradiction|].
+  intros [->|H]; [now rewrite N.eqb_refl|]. rewrite (IH H). apply orb_true_r.
+Qed.
+
+(* invariants of the field loop: [full] is what was read so far followed by what remains;
+   names already seen do not occur in the remainder; names still to come do not occur in [acc] *)
 Lemma rt_fields e pod skip fs : Forall (fun f => rt_at e pod (snd f)) fs ->
-  forall full kvs acc b rest,
+  forall full kvs acc seen b rest,
     forallb (fun f => wf (snd f)) fs = true ->
     butlast_all (map (fun f => delimited (snd f)) fs) = true ->
     nodupN (map fst fs) = true ->
-    tdomb (map (fun f => (fst f, optional (snd f), domb pod (snd f))) fs) skip kvs = true ->
-    (forall n, memN n (map fst fs) = true -> lookup n full = lookup n kvs) ->
+    refs_ok seen (map (fun f => (fst f, refs (snd f))) fs) = true ->
+    tdomb (map (fun f => (fst f, optional (snd f), domb e pod (snd f) full)) fs) skip kvs = true ->
+    full = acc ++ kvs ->
+    (forall m, memN m seen = true -> lookup m kvs = None) ->
+    (forall m, memN m (map fst fs) = true -> lookup m acc = None) ->
     ser_fields (map (fun f => (fst f, optional (snd f), ser e (snd f) full)) fs) full = Some b ->
     (forallb (fun f => delimited (snd f)) fs = true \/ rest = []) ->
     de_fields (map (fun f => (fst f, optional (snd f), de e pod (snd f))) fs) skip acc (b ++ rest)
     = Some (acc ++ kvs, rest).
 Proof.
-  induction 1 as [|f fs Hs _ IH]; intros full kvs acc b rest Hwf Hbl Hnd Hd Hlk Hser Hr.
+  induction 1 as [|f fs Hs _ IH]; intros full kvs acc seen b rest Hwf Hbl Hnd Hro Hd Hfull Hseen Hacc Hser Hr.
   - cbn in Hd. destruct kvs; [|discriminate]. injection Hser as <-. cbn. now rewrite app_nil_r.
   - cbn [map ser_fields] in Hser. cbn [forallb] in Hwf. apply andb_prop in Hwf as [Hwfs Hwf].
     cbn [map nodupN] in Hnd. apply andb_prop in Hnd as [Hnin Hnd]. apply negb_true_iff in Hnin.
+    cbn [map refs_ok fst snd] in Hro. apply andb_prop in Hro as [Hrefs Hro].
     assert (Hbl' : butlast_all (map (fun f => delimited (snd f)) fs) = true).
     { destruct fs as [|f2 fs']; [reflexivity|].
       cbn [map] in Hbl. rewrite butlast_all_cons in Hbl. now apply andb_prop in Hbl as [_ Hbl]. }
@@ -188,18 +215,23 @@ Proof.
     { cbn [map]. rewrite memN_cons, N.eqb_refl. reflexivity. }
     assert (Hsub : forall n, memN n (map fst fs) = true -> memN n (map fst (f :: fs)) = true).
     { intros n Hn. cbn [map]. rewrite memN_cons, Hn. apply orb_true_r. }
+    (* the member's context references agree between the written dict and what was read so far *)
+    assert (Hag : agree (refs (snd f)) full acc).
+    { intros m Hm. rewrite forallb_forall in Hrefs. pose proof (Hrefs m Hm) as Hms.
+      rewrite Hfull, lookup_app. rewrite (Hseen m Hms). destruct (lookup m acc); reflexivity. }
+    assert (Hlkself : lookup (fst f) full = lookup (fst f) kvs).
+    { rewrite Hfull, lookup_app, (Hacc _ Hself). reflexivity. }
     cbn [map tdomb] in Hd. cbn [map de_fields].
     assert (Hb2nil : forall b2,
                ser_fields (map (fun f0 => (fst f0, optional (snd f0), ser e (snd f0) full)) fs) full = Some b2 ->
                fs = [] -> b2 = []).
     { intros b2 E2 ->. cbn in E2. now injection E2 as <-. }
-    (* present or absent? *)
     assert (Hcase :
-      (exists v kvs', kvs = (fst f, v) :: kvs' /\ domb pod (snd f) v = true /\
+      (exists v kvs', kvs = (fst f, v) :: kvs' /\ domb e pod (snd f) full v = true /\
                       (optional (snd f) && skip && is_none v) = false /\
-                      tdomb (map (fun f => (fst f, optional (snd f), domb pod (snd f))) fs) skip kvs' = true)
-      \/ ((optional (snd f) && skip) = true /\ domb pod (snd f) VNone = true /\
-          tdomb (map (fun f => (fst f, optional (snd f), domb pod (snd f))) fs) skip kvs = true)).
+                      tdomb (map (fun f => (fst f, optional (snd f), domb e pod (snd f) full)) fs) skip kvs' = true)
+      \/ ((optional (snd f) && skip) = true /\ domb e pod (snd f) full VNone = true /\
+          tdomb (map (fun f => (fst f, optional (snd f), domb e pod (snd f) full)) fs) skip kvs = true)).
     { destruct kvs as [|[n' v] kvs'].
       - right. apply andb_prop in Hd as [Hd Ht]. apply andb_prop in Hd as [Hos Hn]. auto.
       - destruct (fst f =? n') eqn:E.
@@ -209,30 +241,40 @@ Proof.
         + right. apply andb_prop in Hd as [Hd Ht]. apply andb_prop in Hd as [Hos Hn]. auto. }
     destruct Hcase as [(v & kvs' & -> & Hdv & Hneg & Ht) | (Hos & Hdn & Ht)].
     + (* present *)
-      rewrite (Hlk _ Hself) in Hser. cbn [lookup] in Hser. rewrite N.eqb_refl in Hser.
+      rewrite Hlkself in Hser. cbn [lookup] in Hser. rewrite N.eqb_refl in Hser.
       destruct (ser e (snd f) full v) as [b1|] eqn:E1; [|discriminate].
       destruct (ser_fields (map (fun f0 => (fst f0, optional (snd f0), ser e (snd f0) full)) fs) full)
         as [b2|] eqn:E2; [|discriminate].
       injection Hser as <-. rewrite <- app_assoc.
-      rewrite (Hs full acc v b1 (b2 ++ rest) Hwfs Hdv E1 (Hhead b2 (Hb2nil b2 eq_refl))).
+      rewrite (Hs full acc v b1 (b2 ++ rest) Hwfs Hag Hdv E1 (Hhead b2 (Hb2nil b2 eq_refl))).
       rewrite Hneg.
-      rewrite (IH full kvs' (acc ++ [(fst f, v)]) b2 rest Hwf Hbl' Hnd Ht); [ | | exact E2 | exact Hr'].
+      pose proof (tdomb_keys e pod skip full fs kvs' (fst f) Ht Hnin) as Hnone.
+      rewrite (IH full kvs' (acc ++ [(fst f, v)]) (fst f :: seen) b2 rest Hwf Hbl' Hnd Hro Ht);
+        [ | | | | exact E2 | exact Hr'].
       * now rewrite <- app_assoc.
-      * intros n Hn. rewrite (Hlk n (Hsub n Hn)). cbn [lookup].
-        destruct (n =? fst f) eqn:E; [|reflexivity].
-        apply N.eqb_eq in E. subst n. rewrite Hn in Hnin. discriminate.
+      * rewrite Hfull, <- app_assoc. reflexivity.
+      * intros m Hm. rewrite memN_cons in Hm. apply orb_prop in Hm as [Hm|Hm].
+        -- apply N.eqb_eq in Hm. now subst m.
+        -- pose proof (Hseen m Hm) as Hk. cbn [lookup] in Hk.
+           destruct (m =? fst f); [discriminate|exact Hk].
+      * intros m Hm. rewrite lookup_app, (Hacc m (Hsub m Hm)). cbn [lookup].
+        destruct (m =? fst f) eqn:E; [|reflexivity].
+        apply N.eqb_eq in E. subst m. rewrite Hm in Hnin. discriminate.
     + (* absent: a skipped optional None *)
-      pose proof (tdomb_keys pod skip fs kvs (fst f) Ht Hnin) as Hnone.
-      rewrite (Hlk _ Hself), Hnone in Hser.
+      pose proof (tdomb_keys e pod skip full fs kvs (fst f) Ht Hnin) as Hnone.
+      rewrite Hlkself, Hnone in Hser.
       apply andb_prop in Hos as [Hopt Hskip]. rewrite Hopt in Hser.
       destruct (ser e (snd f) full VNone) as [b1|] eqn:E1; [|discriminate].
       destruct (ser_fields (map (fun f0 => (fst f0, optional (snd f0), ser e (snd f0) full)) fs) full)
         as [b2|] eqn:E2; [|discriminate].
       injection Hser as <-. rewrite <- app_assoc.
-      rewrite (Hs full acc VNone b1 (b2 ++ rest) Hwfs Hdn E1 (Hhead b2 (Hb2nil b2 eq_refl))).
+      rewrite (Hs full acc VNone b1 (b2 ++ rest) Hwfs Hag Hdn E1 (Hhead b2 (Hb2nil b2 eq_refl))).
       replace (optional (snd f) && skip && is_none VNone) with true by (rewrite Hopt, Hskip; reflexivity).
-      apply (IH full kvs acc b2 rest Hwf Hbl' Hnd Ht); [ | exact E2 | exact Hr'].
-      intros n Hn. apply Hlk, Hsub, Hn.
+      apply (IH full kvs acc (fst f :: seen) b2 rest Hwf Hbl' Hnd Hro Ht Hfull); [ | | exact E2 | exact Hr'].
+      * intros m Hm. rewrite memN_cons in Hm. apply orb_prop in Hm as [Hm|Hm].
+        -- apply N.eqb_eq in Hm. now subst m.
+        -- exact (Hseen m Hm).
+      * intros m Hm. exact (Hacc m (Hsub m Hm)).
 Qed.
 
 (* ---------- adapters ---------- *)
@@ -249,11 +291,11 @@ Proof.
 Qed.
 
 (* the adapter law on the domain: decode (encode v) = v, and the encoded int is in the child's domain *)
-Lemma adapter_law a pod D v :
-  adomb a pod D v = true ->
-  exists z, aenc a v = Some (VInt z) /\ D (VInt z) = true /\ adec a pod (VInt z) = Some v.
+Lemma adapter_law_s a pod D v :
+  adomb_s a pod D v = true ->
+  exists z, aenc_s a v = Some (VInt z) /\ D (VInt z) = true /\ adec_s a pod (VInt z) = Some v.
 Proof.
-  destruct a as [|tbl strict|tbl]; cbn [adomb aenc adec].
+  destruct a as [|tbl strict|tbl|id]; cbn [adomb_s aenc_s adec_s].
   - destruct v; try discriminate. intros H. apply andb_prop in H as [Hz HD].
     exists z. cbn [truthy].
     assert (Hz' : z = 0%Z \/ z = 1%Z) by lia.
@@ -274,28 +316,52 @@ Proof.
     + intros H. apply andb_prop in H as [Hp H].
       destruct (flag_or tbl l) as [z|]; [|discriminate]. apply andb_prop in H as [HD H].
       exists z. apply items_eqb_eq in H. rewrite Hp, H. auto.
+  - destruct v; try discriminate. intros HD. exists z. auto.
+Qed.
+
+Lemma fval_eqb_eq a b : fval_eqb a b = true -> a = b.
+Proof.
+  destruct a, b; cbn; try discriminate; intros H.
+  - apply Z.eqb_eq in H. now subst.
+  - apply N.eqb_eq in H. now subst.
+  - apply items_eqb_eq in H. now subst.
+Qed.
+
+Lemma kvs_eqb_eq a b : kvs_eqb a b = true -> a = b.
+Proof.
+  revert b; induction a as [|[k x] a IH]; intros [|[k' y] b]; cbn; try discriminate; [reflexivity|].
+  intros H. apply andb_prop in H as [H H3]. apply andb_prop in H as [H1 H2].
+  apply N.eqb_eq in H1. apply fval_eqb_eq in H2. apply IH in H3. now subst.
+Qed.
+
+Lemma adapter_law a pod D v :
+  adomb a pod D v = true ->
+  exists z, aenc a v = Some (VInt z) /\ D (VInt z) = true /\ adec a pod (VInt z) = Some v.
+Proof.
+  destruct a as [a'|fs sh]; cbn [adomb aenc adec].
+  - apply adapter_law_s.
+  - destruct v as [| | | | | | | | |kvs]; try discriminate.
+    destruct (bf_enc fs sh (VDict kvs)) as [[z| | | | | | | | |]|]; try discriminate.
+    intros H. apply andb_prop in H as [HD H]. exists z. split; [reflexivity|]. split; [exact HD|].
+    destruct (bf_dec fs sh pod (VInt z)) as [[| | | | | | | | |kvs']|]; try discriminate.
+    apply kvs_eqb_eq in H. now subst.
 Qed.
 
 (* ---------- typed bytes ---------- *)
 
-Definition frame_de (e : bool) (k : tbk) (b : bytes) : option (bytes * bytes) :=
-  match k with
-  | TBGreedy => Some (b, [])
-  | TBArray ip => de_bytearray e ip b
-  | TBFixed n => takeN n b
-  | TBTerm ts => de_term ts true b
-  end.
-
 Lemma frame_rt e k buf out rest :
-  match k with TBTerm _ => False | _ => True end ->
+  match k with TBTerm ts _ => is_nil ts = false /\ no_term ts buf = true | _ => True end ->
   frame_ser e k buf = Some out ->
   (match k with TBGreedy => false | _ => true end = true \/ rest = []) ->
   frame_de e k (out ++ rest) = Some (buf, rest).
 Proof.
-  destruct k; cbn [frame_ser frame_de]; intros Hk Hs Hr; try contradiction.
+  destruct k; cbn [frame_ser frame_de]; intros Hk Hs Hr.
   - injection Hs as <-. destruct Hr as [Hr| ->]; [discriminate|]. now rewrite app_nil_r.
   - now apply de_ser_bytearray.
   - apply ser_fixed_some in Hs as [-> Hn]. now apply takeN_app.
+  - destruct Hk as [Hts Hnt].
+    apply (de_ser_term ts true true buf out rest); [|exact Hnt|exact Hs|now left].
+    unfold term_ok. now rewrite Hts.
 Qed.
 
 Lemma de_typed_eq e pod k s en ct c b :
@@ -309,7 +375,7 @@ Lemma de_typed_eq e pod k s en ct c b :
          | None => None
          end
   end.
-Proof. destruct k; reflexivity. Qed.
+Proof. reflexivity. Qed.
 
 Lemma is_none_eq v : is_none v = true -> v = VNone.
 Proof. destruct v; try discriminate; reflexivity. Qed.
@@ -372,22 +438,30 @@ Qed.
 
 (* ---------- the theorem ---------- *)
 
+Lemma agree_sub rs rs' cs cd : (forall n, In n rs' -> In n rs) -> agree rs cs cd -> agree rs' cs cd.
+Proof. intros Hsub H n Hn. apply H, Hsub, Hn. Qed.
+
+Lemma ctx_flag_agree cs cd f ftbl : lookup f cs = lookup f cd -> ctx_flag cs f ftbl = ctx_flag cd f ftbl.
+Proof. unfold ctx_flag. now intros ->. Qed.
+
 Theorem roundtrip e pod s : rt_at e pod s.
 Proof.
   induction s using spec_ind'.
   - now apply rt_leaf.
   - (* tuple *)
-    intros cs cd v b rest Hwf Hd Hs Hr. cbn [ser de domb wf delimited] in *.
+    intros cs cd v b rest Hwf _ Hd Hs Hr. cbn [ser de domb wf delimited] in *.
     destruct v as [| | | | | | | |vs|]; try discriminate.
     apply andb_prop in Hwf as [Hwf Hbl].
     now rewrite (rt_seq e pod ss H vs b rest Hwf Hbl Hd Hs Hr).
   - (* template *)
-    intros cs cd v b rest Hwf Hd Hs Hr. cbn [ser de domb wf delimited] in *.
+    intros cs cd v b rest Hwf _ Hd Hs Hr. cbn [ser de domb wf delimited] in *.
     destruct v as [| | | | | | | | |kvs]; try discriminate.
-    apply andb_prop in Hwf as [Hwf Hnd]. apply andb_prop in Hwf as [Hwf Hbl].
-    now rewrite (rt_fields e pod skip fs H kvs kvs [] b rest Hwf Hbl Hnd Hd (fun n _ => eq_refl) Hs Hr).
+    apply andb_prop in Hwf as [Hwf Hro]. apply andb_prop in Hwf as [Hwf Hnd].
+    apply andb_prop in Hwf as [Hwf Hbl].
+    now rewrite (rt_fields e pod skip fs H kvs kvs [] [] b rest Hwf Hbl Hnd Hro Hd eq_refl
+                           (fun m Hm => ltac:(discriminate Hm)) (fun m _ => eq_refl) Hs Hr).
   - (* collection *)
-    intros cs cd v b rest Hwf Hd Hs Hr. cbn [ser de domb wf delimited] in *.
+    intros cs cd v b rest Hwf _ Hd Hs Hr. cbn [ser de domb wf delimited] in *.
     destruct v as [| | | | | | | |vs|]; try discriminate.
     apply andb_prop in Hwf as [Hwf Hk]. apply andb_prop in Hwf as [Hwf Hdl].
     apply andb_prop in Hd as [Hd Hlen].
@@ -411,48 +485,62 @@ Proof.
       rewrite (rt_all_greedy e pod s IHs Hwf Hdl ltac:(lia) vs b (length b) Hd Hs (le_n _)).
       reflexivity.
   - (* optional prefixed *)
-    intros cs cd v b rest Hwf Hd Hs Hr. rewrite ser_opt_eq in Hs.
-    cbn [de domb wf delimited] in *.
+    intros cs cd v b rest Hwf Hag Hd Hs Hr. rewrite ser_opt_eq in Hs.
+    cbn [de domb wf delimited refs] in *.
     destruct (is_none v) eqn:En.
     + injection Hs as <-. apply is_none_eq in En. subst v. reflexivity.
     + cbn [orb] in Hd. destruct (ser e s cs v) as [b'|] eqn:E; [|discriminate].
       injection Hs as <-. cbn [app]. change (1 =? 0) with false. cbn iota.
-      exact (IHs cs cd v b' rest Hwf Hd E Hr).
+      exact (IHs cs cd v b' rest Hwf Hag Hd E Hr).
   - (* adapter *)
-    intros cs cd v b rest Hwf Hd Hs Hr. cbn [ser de domb wf delimited] in *.
+    intros cs cd v b rest Hwf Hag Hd Hs Hr. cbn [ser de domb wf delimited refs] in *.
     apply andb_prop in Hwf as [Hwf _].
     destruct (adapter_law a pod _ v Hd) as (z & Henc & HD & Hdec).
-    rewrite Henc in Hs. rewrite (IHs cs cd (VInt z) b rest Hwf HD Hs Hr). now rewrite Hdec.
+    rewrite Henc in Hs. rewrite (IHs cs cd (VInt z) b rest Hwf Hag HD Hs Hr). now rewrite Hdec.
   - (* typed bytes *)
-    intros cs cd v b rest Hwf Hd Hs Hr. rewrite ser_typed_eq in Hs. rewrite de_typed_eq.
-    cbn [domb wf delimited] in *.
+    intros cs cd v b rest Hwf Hag Hd Hs Hr. rewrite ser_typed_eq in Hs. rewrite de_typed_eq.
+    cbn [domb wf delimited refs] in *.
     apply andb_prop in Hwf as [Hwf Hk]. apply andb_prop in Hwf as [Hwf Hen].
-    assert (Hk' : match k with TBTerm _ => False | _ => True end) by (destruct k; try exact I; discriminate).
     destruct (en && is_none v) eqn:En.
     + apply andb_prop in En as [En Hn]. apply is_none_eq in Hn. subst v en.
-      assert (Hs' : frame_ser e k [] = Some b) by (destruct k; try exact Hs; contradiction).
-      rewrite (frame_rt e k [] b rest Hk' Hs' Hr). reflexivity.
-    + cbn [orb] in Hd. destruct (ser e s cs v) as [buf|] eqn:E; [|discriminate].
-      rewrite (frame_rt e k buf b rest Hk' Hs Hr).
+      destruct k as [|ip|n|ts sk].
+      * rewrite (frame_rt e TBGreedy [] b rest I Hs Hr). reflexivity.
+      * rewrite (frame_rt e (TBArray ip) [] b rest I Hs Hr). reflexivity.
+      * rewrite (frame_rt e (TBFixed n) [] b rest I Hs Hr). reflexivity.
+      * apply negb_true_iff in Hk. destruct sk.
+        -- injection Hs as <-. cbn [andb negb] in Hr. destruct Hr as [Hr| ->]; [discriminate|].
+           cbn [app frame_de de_term scan]. reflexivity.
+        -- rewrite (frame_rt e (TBTerm ts false) [] b rest (conj Hk eq_refl) Hs (or_introl eq_refl)).
+           reflexivity.
+    + cbn [orb] in Hd. apply andb_prop in Hd as [Hd Hnt].
+      destruct (ser e s cs v) as [buf|] eqn:E; [|discriminate].
+      assert (Hfr : frame_de e k (b ++ rest) = Some (buf, rest)).
+      { destruct k as [|ip|n|ts sk].
+        - exact (frame_rt e TBGreedy buf b rest I Hs Hr).
+        - exact (frame_rt e (TBArray ip) buf b rest I Hs Hr).
+        - exact (frame_rt e (TBFixed n) buf b rest I Hs Hr).
+        - apply negb_true_iff in Hk.
+          exact (frame_rt e (TBTerm ts sk) buf b rest (conj Hk Hnt) Hs (or_introl eq_refl)). }
+      rewrite Hfr.
       assert (Hne : (en && is_nil buf) = false).
       { destruct en; [|reflexivity]. cbn [negb orb] in Hen.
         pose proof (min_size_bound e s cs v buf E). destruct buf; [cbn in *; lia|reflexivity]. }
       rewrite Hne.
-      pose proof (IHs cs cd v buf [] Hwf Hd E (or_intror eq_refl)) as Hi.
+      pose proof (IHs cs cd v buf [] Hwf Hag Hd E (or_intror eq_refl)) as Hi.
       rewrite app_nil_r in Hi. rewrite Hi. cbn [is_nil negb]. now rewrite andb_false_r.
   - (* ifpresent: a window spec *)
-    intros c1 c2 v b rest Hwf Hd Hs Hr. rewrite ser_ifpresent_eq in Hs.
-    cbn [domb wf delimited] in *.
+    intros c1 c2 v b rest Hwf Hag Hd Hs Hr. rewrite ser_ifpresent_eq in Hs.
+    cbn [domb wf delimited refs] in *.
     destruct Hr as [Hr| ->]; [discriminate|]. rewrite app_nil_r.
     apply andb_prop in Hwf as [Hwf Hms].
     destruct (is_none v) eqn:En.
     + injection Hs as <-. apply is_none_eq in En. now subst v.
     + cbn [orb] in Hd. pose proof (min_size_bound e s c1 v b Hs) as Hb.
       destruct b as [|x b']; [cbn in Hb; lia|]. cbn [de].
-      pose proof (IHs c1 c2 v (x :: b') [] Hwf Hd Hs (or_intror eq_refl)) as Hi.
+      pose proof (IHs c1 c2 v (x :: b') [] Hwf Hag Hd Hs (or_intror eq_refl)) as Hi.
       rewrite app_nil_r in Hi. exact Hi.
   - (* lengthswitch: a window spec; the tag is the size of the window *)
-    intros c1 c2 v b rest Hwf Hd Hs Hr. cbn [ser de domb wf delimited] in *.
+    intros c1 c2 v b rest Hwf Hag Hd Hs Hr. cbn [ser de domb wf delimited refs] in *.
     destruct Hr as [Hr| ->]; [discriminate|]. rewrite app_nil_r.
     destruct v as [| | | | | | | |l|]; try discriminate.
     destruct l as [|t [|x [|? ?]]]; try discriminate.
@@ -463,26 +551,27 @@ Proof.
     pose proof (pick_map (fun s0 => ser e s0 c1) (Z.to_N t) cs) as Fs. cbv beta in Fs.
     rewrite Fs in Hp. clear Fs.
     destruct (pick (Z.to_N t) cs) as [s'|] eqn:Ep; [|discriminate]. injection Hp as <-.
-    pose proof (pick_map (fun s0 => (exact_size s0, domb pod s0)) (Z.to_N t) cs) as Fd.
+    pose proof (pick_map (fun s0 => (ser e s0 c1, domb e pod s0 c1)) (Z.to_N t) cs) as Fd.
     rewrite Ep in Fd. unfold pick in Fd. cbv beta in Fd. rewrite Fd in Hd. clear Fd.
-    apply andb_prop in Hd as [Hsz Hdx]. apply optN_eqb_eq in Hsz.
-    pose proof (exact_size_ok e s' c1 x b _ Hsz Hf) as Hlen. rewrite Hlen.
+    apply andb_prop in Hd as [Hdx Hlen]. rewrite Hf in Hlen. apply N.eqb_eq in Hlen. rewrite Hlen.
     pose proof (pick_map (fun s0 => de e pod s0 c2) (Z.to_N t) cs) as Fde.
     rewrite Ep in Fde. unfold pick in Fde. cbv beta in Fde. rewrite Fde. clear Fde.
     destruct (pick_in _ _ _ Ep) as (k' & Hin).
     rewrite Forall_forall in H. pose proof (H _ Hin) as IH'. cbn [snd] in IH'.
     rewrite forallb_forall in Hwf. pose proof (Hwf _ Hin) as Hwf'. cbn [snd] in Hwf'.
-    pose proof (IH' c1 c2 x b [] Hwf' Hdx Hf (or_intror eq_refl)) as Hi.
+    assert (Hag' : agree (refs s') c1 c2).
+    { apply (agree_sub _ _ _ _ (fun n Hn => ltac:(apply in_flat_map; exists (k', s'); split; [exact Hin|exact Hn])) Hag). }
+    pose proof (IH' c1 c2 x b [] Hwf' Hag' Hdx Hf (or_intror eq_refl)) as Hi.
     rewrite app_nil_r in Hi. rewrite Hi. rewrite Z2N.id by lia. reflexivity.
   - (* enumswitch *)
-    intros c1 c2 v b rest Hwf Hd Hs Hr. cbn [ser de domb wf delimited] in *.
+    intros c1 c2 v b rest Hwf Hag Hd Hs Hr. cbn [ser de domb wf delimited refs] in *.
     destruct v as [| | | | | | | |l|]; try discriminate.
     destruct l as [|t [|x [|? ?]]]; try discriminate.
     apply andb_prop in Hd as [Hda Hd].
-    destruct (adapter_law _ pod _ t Hda) as (z & Henc & HD & Hdec).
+    destruct (adapter_law_s _ pod _ t Hda) as (z & Henc & HD & Hdec).
     rewrite Henc in Hs, Hd. cbv beta iota in Hs, Hd.
     pose proof (find_choice_map Z.eqb (fun s0 => ser e s0 c1) z cs) as Fs. cbv beta in Fs.
-    pose proof (find_choice_map Z.eqb (fun s0 => domb pod s0) z cs) as Fd. cbv beta in Fd.
+    pose proof (find_choice_map Z.eqb (fun s0 => domb e pod s0 c1) z cs) as Fd. cbv beta in Fd.
     pose proof (find_choice_map Z.eqb (fun s0 => de e pod s0 c2) z cs) as Fde. cbv beta in Fde.
     rewrite Fs in Hs. rewrite Fd in Hd.
     destruct (enc_int e ip z) as [h|] eqn:Eh; [|discriminate].
@@ -495,41 +584,65 @@ Proof.
     assert (Hr' : delimited s' = true \/ rest = []).
     { destruct Hr as [Hr|Hr]; [left|now right].
       rewrite forallb_forall in Hr. exact (Hr _ Hin). }
-    now rewrite (IH' c1 c2 x r rest Hwf' Hd Er Hr').
+    assert (Hag' : agree (refs s') c1 c2).
+    { apply (agree_sub _ _ _ _ (fun n Hn => ltac:(apply in_flat_map; exists (k', s'); split; [exact Hin|exact Hn])) Hag). }
+    now rewrite (IH' c1 c2 x r rest Hwf' Hag' Hd Er Hr').
+  - (* optional flagged: presence decided by a sibling that both sides see *)
+    intros c1 c2 v b rest Hwf Hag Hd Hs Hr. cbn [ser de domb wf delimited refs] in *.
+    rewrite <- (ctx_flag_agree c1 c2 f ftbl (Hag f (or_introl eq_refl))).
+    destruct (ctx_flag c1 f ftbl) as [z|]; [|discriminate].
+    destruct (Z.eqb (Z.land z mask) 0).
+    + injection Hs as <-. apply is_none_eq in Hd. subst v. reflexivity.
+    + apply (IHs c1 c2 v b rest Hwf); [|exact Hd|exact Hs|exact Hr].
+      intros n Hn. apply Hag. now right.
 Qed.
 
 (* ---------- corollaries: windows and composition ---------- *)
 
 Corollary rt_delimited e pod s cs cd v b :
-  wf s = true -> delimited s = true -> domb pod s v = true -> ser e s cs v = Some b ->
+  wf s = true -> agree (refs s) cs cd -> delimited s = true -> domb e pod s cs v = true ->
+  ser e s cs v = Some b ->
   forall rest, de e pod s cd (b ++ rest) = Some (v, rest).
-Proof. intros Hwf Hdl Hd Hs rest. exact (roundtrip e pod s cs cd v b rest Hwf Hd Hs (or_introl Hdl)). Qed.
+Proof. intros Hwf Hag Hdl Hd Hs rest. exact (roundtrip e pod s cs cd v b rest Hwf Hag Hd Hs (or_introl Hdl)). Qed.
 
 Corollary rt_window e pod s cs cd v b :
-  wf s = true -> domb pod s v = true -> ser e s cs v = Some b ->
+  wf s = true -> agree (refs s) cs cd -> domb e pod s cs v = true -> ser e s cs v = Some b ->
   de e pod s cd b = Some (v, []).
 Proof.
-  intros Hwf Hd Hs. pose proof (roundtrip e pod s cs cd v b [] Hwf Hd Hs (or_intror eq_refl)) as H.
+  intros Hwf Hag Hd Hs.
+  pose proof (roundtrip e pod s cs cd v b [] Hwf Hag Hd Hs (or_intror eq_refl)) as H.
   now rewrite app_nil_r in H.
+Qed.
+
+(* a spec without context references (every spec not nested directly under a Template member that an
+   OptionalFlagged refers to) round-trips under arbitrary, unrelated contexts *)
+Corollary rt_closed e pod s cs cd v b rest :
+  wf s = true -> refs s = [] -> domb e pod s cs v = true -> ser e s cs v = Some b ->
+  (delimited s = true \/ rest = []) ->
+  de e pod s cd (b ++ rest) = Some (v, rest).
+Proof.
+  intros Hwf Hrefs Hd Hs Hr. apply (roundtrip e pod s cs cd v b rest Hwf); try assumption.
+  rewrite Hrefs. apply agree_nil.
 Qed.
 
 (* two encodings written one after the other are read back one after the other *)
 Corollary compose_seq e pod s1 s2 c1 c2 d1 d2 v1 v2 b1 b2 rest :
-  wf s1 = true -> delimited s1 = true -> domb pod s1 v1 = true -> ser e s1 c1 v1 = Some b1 ->
-  wf s2 = true -> domb pod s2 v2 = true -> ser e s2 c2 v2 = Some b2 ->
+  wf s1 = true -> agree (refs s1) c1 d1 -> delimited s1 = true -> domb e pod s1 c1 v1 = true ->
+  ser e s1 c1 v1 = Some b1 ->
+  wf s2 = true -> agree (refs s2) c2 d2 -> domb e pod s2 c2 v2 = true -> ser e s2 c2 v2 = Some b2 ->
   (delimited s2 = true \/ rest = []) ->
   de e pod s1 d1 (b1 ++ b2 ++ rest) = Some (v1, b2 ++ rest) /\
   de e pod s2 d2 (b2 ++ rest) = Some (v2, rest).
 Proof.
-  intros W1 D1 M1 S1 W2 M2 S2 Hr. split.
-  - exact (rt_delimited e pod s1 c1 d1 v1 b1 W1 D1 M1 S1 (b2 ++ rest)).
-  - exact (roundtrip e pod s2 c2 d2 v2 b2 rest W2 M2 S2 Hr).
+  intros W1 A1 D1 M1 S1 W2 A2 M2 S2 Hr. split.
+  - exact (rt_delimited e pod s1 c1 d1 v1 b1 W1 A1 D1 M1 S1 (b2 ++ rest)).
+  - exact (roundtrip e pod s2 c2 d2 v2 b2 rest W2 A2 M2 S2 Hr).
 Qed.
 
 (* ... and they are the encoding of the pair under the Tuple combinator *)
 Corollary compose_tuple e pod s1 s2 c cd v1 v2 b1 b2 rest :
-  wf s1 = true -> delimited s1 = true -> domb pod s1 v1 = true -> ser e s1 [] v1 = Some b1 ->
-  wf s2 = true -> domb pod s2 v2 = true -> ser e s2 [] v2 = Some b2 ->
+  wf s1 = true -> delimited s1 = true -> domb e pod s1 [] v1 = true -> ser e s1 [] v1 = Some b1 ->
+  wf s2 = true -> domb e pod s2 [] v2 = true -> ser e s2 [] v2 = Some b2 ->
   (delimited s2 = true \/ rest = []) ->
   ser e (STuple [s1; s2]) c (VList [v1; v2]) = Some (b1 ++ b2) /\
   de e pod (STuple [s1; s2]) cd ((b1 ++ b2) ++ rest) = Some (VList [v1; v2], rest).
@@ -540,6 +653,7 @@ Proof.
   split; [exact Hs|].
   apply (roundtrip e pod (STuple [s1; s2]) c cd (VList [v1; v2]) (b1 ++ b2) rest).
   - cbn [wf forallb map butlast_all]. now rewrite W1, W2, D1.
+  - apply agree_nil.
   - cbn [domb map all2]. now rewrite M1, M2.
   - exact Hs.
   - cbn [delimited forallb]. rewrite D1. destruct Hr as [Hr|Hr]; [left; now rewrite Hr|now right].
@@ -548,12 +662,13 @@ Qed.
 (* n encodings in a row are the body of a Collection and are read back as the list *)
 Corollary compose_collection e pod s cd vs b :
   wf s = true -> delimited s = true -> 0 < min_size s ->
-  forallb (domb pod s) vs = true -> ser_all (ser e s []) vs = Some b ->
+  forallb (domb e pod s []) vs = true -> ser_all (ser e s []) vs = Some b ->
   de e pod (SCollection LGreedy s) cd b = Some (VList vs, []).
 Proof.
   intros W D M Hd Hs.
   apply (rt_window e pod (SCollection LGreedy s) [] cd (VList vs) b).
   - cbn [wf]. rewrite W, D. cbn. lia.
+  - apply agree_nil.
   - cbn [domb]. now rewrite Hd.
   - exact Hs.
 Qed.
